@@ -287,12 +287,32 @@ def run_check(spec, tier, seed, budget_scale=1.0, out=sys.stdout):
                                'theorem or correspondence no longer checks', True))
 
     # ---- 7b. monitor the libm hypotheses used by theorems on every call the implementation made ----
-    libm_mon = {'calls': 0, 'cos_zero_one': 0, 'sin_zero_zero': 0, 'cos_range': 0, 'tanh_range': 0, 'violations': []}
+    libm_mon = {'calls': 0, 'cos_zero_one': 0, 'sin_zero_zero': 0, 'cos_range': 0, 'tanh_range': 0,
+                'cos_acc_u=2^-52_on_[-8,8]': 0, 'sin_acc_u=2^-52_on_[-8,8]': 0, 'atan2_range_[-PI,PI]': 0, 'violations': []}
     ONE = fb.bits(1.0)
+    import mpmath as _mp
+    U52 = _mp.mpf(2) ** -52
+    PI_F = 3.141592653589793
+    def _acc(fn, key, a, r_):
+        fa, fr = fb.fl(a), fb.fl(r_)
+        if fa == fa and abs(fa) <= 8.0:
+            libm_mon[key] += 1
+            if not (fr == fr and abs(_mp.mpf(fr) - fn(_mp.mpf(fa))) <= U52):
+                libm_mon['violations'].append([key, a, r_])
     for c in cases:
         for (f, a, b_, r_) in dbg[c.cid][1]:
             libm_mon['calls'] += 1
             fa, fr = fb.fl(a), fb.fl(r_)
+            if f == 0:
+                _acc(_mp.cos, 'cos_acc_u=2^-52_on_[-8,8]', a, r_)
+            if f == 1:
+                _acc(_mp.sin, 'sin_acc_u=2^-52_on_[-8,8]', a, r_)
+            if f == 2:
+                fb2 = fb.fl(b_)
+                if fa == fa and fb2 == fb2 and abs(fa) != float('inf') and abs(fb2) != float('inf'):
+                    libm_mon['atan2_range_[-PI,PI]'] += 1
+                    if not (fr == fr and abs(fr) <= PI_F):
+                        libm_mon['violations'].append(['atan2_range', a, b_, r_])
             if f == 0:
                 libm_mon['cos_range'] += 1
                 if fa == fa and abs(fa) != float('inf') and not (fr == fr and abs(fr) <= 1.0):
